@@ -184,13 +184,14 @@ class VFunc(SV):
 
 class VModel(SV):
     """A callable implemented by a model function of the executor."""
-    __slots__ = ("fn", "name", "selfv")
+    __slots__ = ("fn", "name", "selfv", "meta")
     cls = type(len)
 
-    def __init__(self, fn, name, selfv=None):
+    def __init__(self, fn, name, selfv=None, meta=None):
         self.fn = fn
         self.name = name
         self.selfv = selfv
+        self.meta = meta
 
     def __repr__(self):
         return f"VModel({self.name})"
